@@ -1970,6 +1970,29 @@ class VM:
             arr._elements = parts
             return arr
 
+        def expand(template, matched, index):
+            """GetSubstitution for a string pattern (no captures): $$ $& $` $'."""
+            if "$" not in template:
+                return template
+            out = []
+            i = 0
+            while i < len(template):
+                pair = template[i : i + 2]
+                if pair == "$$":
+                    out.append("$")
+                elif pair == "$&":
+                    out.append(matched)
+                elif pair == "$`":
+                    out.append(s[:index])
+                elif pair == "$'":
+                    out.append(s[index + len(matched) :])
+                else:
+                    out.append(template[i])
+                    i += 1
+                    continue
+                i += 2
+            return "".join(out)
+
         def toLowerCase(*args):
             return s.lower()
 
@@ -2069,16 +2092,10 @@ class VM:
             else:
                 # String replace - only replace first occurrence
                 search = to_string(pattern)
-                # Handle special replacement patterns
-                repl = replacement
-                if "$$" in repl:
-                    repl = repl.replace("$$", "\x00DOLLAR\x00")
-                if "$&" in repl:
-                    repl = repl.replace("$&", search)
-                repl = repl.replace("\x00DOLLAR\x00", "$")
                 # Find first occurrence and replace
                 idx = s.find(search)
                 if idx >= 0:
+                    repl = expand(replacement, search, idx)
                     return s[:idx] + repl + s[idx + len(search) :]
                 return s
 
@@ -2094,15 +2111,17 @@ class VM:
             else:
                 # String replaceAll - replace all occurrences
                 search = to_string(pattern)
-                # Handle special replacement patterns
-                if "$$" in replacement:
-                    # $$ -> $ (must be done before other replacements)
-                    replacement = replacement.replace("$$", "\x00DOLLAR\x00")
-                if "$&" in replacement:
-                    # $& -> the matched substring
-                    replacement = replacement.replace("$&", search)
-                replacement = replacement.replace("\x00DOLLAR\x00", "$")
-                return s.replace(search, replacement)
+                parts = []
+                end = 0
+                idx = s.find(search)
+                while idx >= 0:
+                    parts.append(s[end:idx])
+                    parts.append(expand(replacement, search, idx))
+                    end = idx + len(search)
+                    # an empty search string matches once at every position
+                    idx = s.find(search, idx + max(1, len(search)))
+                parts.append(s[end:])
+                return "".join(parts)
 
         def match(*args):
             pattern = args[0] if args else None
